@@ -919,8 +919,13 @@ type provInst struct {
 	top     spi.Provider
 	handles [16]map[int]spi.Store // per goroutine: name -> the handle ITS OpenStore returned
 
-	mu    sync.Mutex
-	names map[spi.Store]int // every handle any OpenStore returned (to name the stores GetOpenStores returns)
+	mu     sync.Mutex
+	names  map[spi.Store]int // every handle any OpenStore returned (to name the stores GetOpenStores returns)
+	order  []spi.Store       // ... in registration order
+	closed map[spi.Store]bool // handle invalidation: set BEFORE Store.Close / Provider.Close is called on it
+	// ambiguous: handles registered while a Provider.Close was running: nobody can tell whether that Close closed them
+	ambiguous map[spi.Store]bool
+	closing   int
 }
 
 func newProvInst(c Case, ct *ctl) (Inst, error) {
@@ -929,7 +934,7 @@ func newProvInst(c Case, ct *ctl) (Inst, error) {
 		return nil, err
 	}
 
-	w := &provInst{top: p, names: map[spi.Store]int{}}
+	w := &provInst{top: p, names: map[spi.Store]int{}, closed: map[spi.Store]bool{}, ambiguous: map[spi.Store]bool{}}
 	for i := range w.handles {
 		w.handles[i] = map[int]spi.Store{}
 	}
@@ -960,26 +965,36 @@ func perr(err error) Out {
 	return Out{Kind: "err", Err: err.Error()}
 }
 
-// handleFor: the handle of goroutine owner-1 for the name (owner 0 = the caller's own), else any handle for it.
+// handleFor: the handle of goroutine owner-1 for the name (owner 0 = the caller's own) if it is still valid, else the
+// valid handle for the name registered last, else nil. A handle is invalid from the moment a Store.Close on it (or a
+// Provider.Close) is about to be called: an operation that took a handle just before runs on the closing/closed store
+// object and is ordered before the close.
 func (w *provInst) handleFor(g, owner, n int) spi.Store {
 	if owner > 0 {
 		g = owner - 1
 	}
 
-	if h := w.handles[g][n]; h != nil {
-		return h
-	}
-
 	w.mu.Lock()
 	defer w.mu.Unlock()
 
-	for h, m := range w.names {
-		if m == n {
+	if h := w.handles[g][n]; h != nil && !w.closed[h] {
+		return h
+	}
+
+	for i := len(w.order) - 1; i >= 0; i-- {
+		if h := w.order[i]; w.names[h] == n && !w.closed[h] {
 			return h
 		}
 	}
 
 	return nil
+}
+
+func (w *provInst) isAmbiguous(h spi.Store) bool {
+	w.mu.Lock()
+	defer w.mu.Unlock()
+
+	return w.ambiguous[h]
 }
 
 func (w *provInst) Exec(g int, o *Op) (out Out) {
@@ -998,13 +1013,48 @@ func (w *provInst) Exec(g int, o *Op) (out Out) {
 			return perr(err)
 		}
 
-		w.handles[g][o.U] = h
-
 		w.mu.Lock()
+		w.handles[g][o.U] = h
+		if _, known := w.names[h]; !known {
+			w.order = append(w.order, h)
+		}
+
 		w.names[h] = o.U
+		if w.closing > 0 {
+			w.ambiguous[h] = true
+		}
 		w.mu.Unlock()
 
 		return Out{Kind: "done"}
+	case "psclose":
+		h := w.handleFor(g, o.ID, o.U)
+		if h == nil {
+			return Out{Kind: "done"} // nothing open under that name
+		}
+
+		w.mu.Lock()
+		w.closed[h] = true
+		w.mu.Unlock()
+
+		return perr(h.Close())
+	case "pclose":
+		w.mu.Lock()
+		w.closing++
+		for _, h := range w.order {
+			w.closed[h] = true
+		}
+		w.mu.Unlock()
+
+		err := w.top.Close()
+
+		// an OpenStore that was in progress when Close started may register its handle only now: wait a moment
+		time.Sleep(2 * time.Millisecond)
+
+		w.mu.Lock()
+		w.closing--
+		w.mu.Unlock()
+
+		return perr(err)
 	case "psetcfg":
 		tn := make([]string, len(o.Ks))
 		for i, t := range o.Ks {
@@ -1066,11 +1116,19 @@ func (w *provInst) Exec(g int, o *Op) (out Out) {
 			return Out{Kind: "err", Err: "no handle"}
 		}
 
+		if w.isAmbiguous(h) {
+			return Out{Kind: "unknown", Err: "handle obtained while Provider.Close was running"}
+		}
+
 		return perr(h.Put(keyStr(o.K), valBytes(o.V)))
 	case "pget":
 		h := w.handleFor(g, o.ID, o.U)
 		if h == nil {
 			return Out{Kind: "err", Err: "no handle"}
+		}
+
+		if w.isAmbiguous(h) {
+			return Out{Kind: "unknown", Err: "handle obtained while Provider.Close was running"}
 		}
 
 		v, err := h.Get(keyStr(o.K))
@@ -1166,6 +1224,21 @@ func (provModel) Step(st State, o Op, got Out) (State, bool) {
 		}
 
 		return s, got.Kind == "cfg" && eqInts(got.Vs, cur.cfg)
+	case "psclose":
+		if !open {
+			return s, got.Kind == "done"
+		}
+
+		n := &provState{m: map[int]pstoreState{}}
+		for k, v := range s.m {
+			if k != o.U {
+				n.m[k] = v
+			}
+		}
+
+		return n, got.Kind == "done"
+	case "pclose":
+		return &provState{m: map[int]pstoreState{}}, got.Kind == "done"
 	case "pgetopen":
 		ns := []int{}
 		for n := range s.m {
@@ -1212,6 +1285,10 @@ func coqProv(_ Case, h []Ev, w []int) string {
 			op = fmt.Sprintf("PGetCfg %d", e.Op.U)
 		case "pgetopen":
 			op = "PGetOpen"
+		case "psclose":
+			op = fmt.Sprintf("PStoreClose %d", e.Op.U)
+		case "pclose":
+			op = "PClose"
 		case "pput":
 			op = fmt.Sprintf("PStore %d (Put %d %d [])", e.Op.U, e.Op.K, e.Op.V)
 		default:
@@ -1286,6 +1363,17 @@ func genProv(r *hx.Rng, c *Case, g, n int) {
 				c.Threads[t] = append(c.Threads[t], Op{Kind: "pgetcfg", U: 1 + r.Intn(2)})
 			case x < 5 && !provRestricted(c.Stack):
 				c.Threads[t] = append(c.Threads[t], Op{Kind: "pgetopen"})
+			case x < 6 && c.Stack.Base == "" && len(c.Stack.Wraps) == 0 && r.Intn(3) > 0:
+				// Store.Close through a handle (or, rarely, Provider.Close): afterwards the name is not open until reopened.
+				// Freely interleaved only on the bare in-memory provider, whose Close is one locked step; a wrapper's
+				// Store.Close (forget the store, flush, close the store below) overlapping an OpenStore of the SAME name
+				// hands out a store that is being closed — on wrappers close operations run in the forced overlaps
+				// (other name / whole provider) and sequentially.
+				if r.Intn(6) == 0 {
+					c.Threads[t] = append(c.Threads[t], Op{Kind: "pclose"})
+				} else {
+					c.Threads[t] = append(c.Threads[t], Op{Kind: "psclose", U: mine})
+				}
 			case x < 9:
 				c.Threads[t] = append(c.Threads[t], Op{Kind: "pput", U: mine, K: 1 + r.Intn(2), V: v})
 			default:
